@@ -291,6 +291,8 @@ pub struct Plan {
     /// 2 blank (NULs), 3 empty after trimming (spaces), 4 only the first character, 5 last character changed, 6 first
     /// character changed, 7 the configured one with its two halves swapped
     pub wrong_serial_variant: u8,
+    /// the last queued exchange plan of a (call, command) is used again and again instead of falling back to the default
+    pub sticky_last_plan: bool,
     /// the registration completion carries the optional status byte (BMP 19) with this value (and a terminal id)
     pub registration_status_byte: Option<u8>,
     /// from the start of this call on the terminal holds a dangling pre-authorisation with this receipt number and
@@ -451,7 +453,8 @@ impl Shared {
     }
     fn take_explan(&mut self, cmd: Cmd) -> ExPlan {
         let call = self.call;
-        self.plan.ex.get_mut(&(call, cmd)).and_then(|q| q.pop_front()).unwrap_or_default()
+        let sticky = self.plan.sticky_last_plan;
+        self.plan.ex.get_mut(&(call, cmd)).and_then(|q| if sticky && q.len() == 1 { q.front().cloned() } else { q.pop_front() }).unwrap_or_default()
     }
 }
 
